@@ -63,7 +63,7 @@ def tagged_counter(ctx):
         for h in sels:
             n_sel += 1
             # lhs = runs[<tag value>][k]
-            ok_shape = h.lhs[0] == "i" and h.lhs[2] == k and h.lhs[1][0] == "i" and domain_class(h.domain) == RUN_GATED
+            ok_shape = h.lhs[0] == "i" and h.lhs[2] == k and h.lhs[1][0] == "i" and domain_class(h.domain) == RUN_GATED and not is_sync(h.domain)  # a combinational pulse in the cycle of the call
             key = h.lhs[1][2] if ok_shape else None
             runs = h.lhs[1][1] if ok_shape else None
             cons = f"TaggedCounter.select[{'one-hot' if one_hot else 'compare'}]"
